@@ -547,7 +547,8 @@ class XPathToken(Token[ta.XPathTokenType]):
 
             # Converts to float for lesser-greater operators (3.)
             if self.symbol in ('<', '<=', '>', '>='):
-                yield from product(map(float, left_values), map(float, right_values))
+                yield from product(map(self.number_value, left_values),
+                                   map(self.number_value, right_values))
                 return
             elif self.parser.version == '1.0':
                 # XPath 1.0: if one operand is a number the other one is converted to a number
